@@ -181,3 +181,18 @@ def init_fields(tree, spec, fn) -> str:
 
 
 KINDS["init_fields"] = init_fields
+
+
+def raise_test(tree, spec, fn) -> str:
+    """kind "raise_test": the test of the (single, or fn["nth"]-th of fn["of"]) `if <test>: raise ...` statement of function
+    fn["py"] becomes  Definition coq (args) : bool := <test>   (true = the function raises there)."""
+    node = find_function(tree, fn["py"])
+    hits = [s for s in ast.walk(node) if isinstance(s, ast.If) and len(s.body) == 1 and isinstance(s.body[0], ast.Raise) and not s.orelse]
+    hits.sort(key=lambda s: (s.lineno, s.col_offset))
+    if len(hits) != fn.get("of", 1):
+        raise Unsupported(f"{fn['py']}: {len(hits)} guarded raise statements (expected {fn.get('of', 1)})")
+    ctx = Ctx(spec, fn)
+    return f"Definition {fn['coq']} {_params(fn)} : bool :=\n  {bexpr(ctx, hits[fn.get('nth', 0)].test)}.\n"
+
+
+KINDS["raise_test"] = raise_test
